@@ -88,6 +88,24 @@ namespace bloch::runtime {
         return v.type == Value::Type::Object && !v.objectValue;
     }
 
+    // An int stored into a slot declared 'long' (variable, field, parameter, return value)
+    // widens to a 64-bit value there, so later arithmetic and overload choice see a long.
+    static Value widenTo(Value::Type declared, Value v) {
+        if (declared == Value::Type::Long && v.type == Value::Type::Int) {
+            v.type = Value::Type::Long;
+            v.longValue = v.intValue;
+        }
+        return v;
+    }
+
+    static Value widenTo(Type* declared, Value v) {
+        if (auto prim = dynamic_cast<PrimitiveType*>(declared)) {
+            if (prim->name == "long")
+                return widenTo(Value::Type::Long, std::move(v));
+        }
+        return v;
+    }
+
     static std::string valueToString(const Value& v) {
         // Pretty-print a runtime value for echo and tracked summaries.
         std::ostringstream oss;
@@ -650,7 +668,7 @@ namespace bloch::runtime {
         for (auto it = m_env.rbegin(); it != m_env.rend(); ++it) {
             auto fit = it->find(name);
             if (fit != it->end()) {
-                Value newVal = v;
+                Value newVal = widenTo(fit->second.value.type, v);
                 if (fit->second.value.type == Value::Type::Object &&
                     newVal.type == Value::Type::Object && newVal.objectValue &&
                     !fit->second.value.className.empty()) {
@@ -666,7 +684,7 @@ namespace bloch::runtime {
             if (!m_inStaticContext && thisObj) {
                 RuntimeField* field = findInstanceField(m_currentClassCtx, name);
                 if (field && field->offset < thisObj->fields.size()) {
-                    Value newVal = v;
+                    Value newVal = widenTo(field->type.kind, v);
                     const Value& existing = thisObj->fields[field->offset];
                     if (existing.type == Value::Type::Object &&
                         newVal.type == Value::Type::Object && newVal.objectValue &&
@@ -679,7 +697,7 @@ namespace bloch::runtime {
             }
             auto [field, owner] = findStaticFieldWithOwner(m_currentClassCtx, name);
             if (field && owner && field->offset < owner->staticStorage.size()) {
-                Value newVal = v;
+                Value newVal = widenTo(field->type.kind, v);
                 const Value& existing = owner->staticStorage[field->offset];
                 if (existing.type == Value::Type::Object && newVal.type == Value::Type::Object &&
                     newVal.objectValue && !existing.className.empty()) {
@@ -1220,7 +1238,7 @@ namespace bloch::runtime {
             m_currentClassCtx = cls;
             slot = defaultValueForField(field, cls->name);
             if (field.hasInitializer && field.initializer) {
-                slot = eval(field.initializer);
+                slot = widenTo(field.type.kind, eval(field.initializer));
             }
             m_inStaticContext = prevStatic;
             m_currentClassCtx = prevClass;
@@ -1432,7 +1450,7 @@ namespace bloch::runtime {
                 thisVal.className = cls->name;
                 m_env.back()["this"] = {thisVal, false, true};
                 Value init = eval(field.initializer);
-                slot = init;
+                slot = widenTo(field.type.kind, init);
                 endScope();
                 m_currentClassCtx = prevClass;
                 m_inStaticContext = prevStatic;
@@ -1470,7 +1488,8 @@ namespace bloch::runtime {
         thisVal.className = cls->name;
         m_env.back()["this"] = {thisVal, false, true};
         for (size_t i = 0; ctor && i < ctor->params.size() && i < args.size(); ++i) {
-            m_env.back()[ctor->params[i]->name] = {args[i], false, true};
+            m_env.back()[ctor->params[i]->name] = {widenTo(ctor->params[i]->type.get(), args[i]),
+                                                   false, true};
         }
 
         // Detect an explicit super(...) call as the first statement.
@@ -1557,7 +1576,7 @@ namespace bloch::runtime {
                 const auto& param = ctor->params[i];
                 auto fieldMeta = findInstanceField(cls, param->name);
                 if (fieldMeta && fieldMeta->offset < obj->fields.size()) {
-                    obj->fields[fieldMeta->offset] = args[i];
+                    obj->fields[fieldMeta->offset] = widenTo(fieldMeta->type.kind, args[i]);
                 }
             }
         }
@@ -1609,7 +1628,8 @@ namespace bloch::runtime {
         }
         m_returnValue = {};
         for (size_t i = 0; i < method->decl->params.size() && i < args.size(); ++i) {
-            m_env.back()[method->decl->params[i]->name] = {args[i], false, true};
+            Value::Type declared = i < method->params.size() ? method->params[i].kind : args[i].type;
+            m_env.back()[method->decl->params[i]->name] = {widenTo(declared, args[i]), false, true};
         }
         bool prevReturn = m_hasReturn;
         m_hasReturn = false;
@@ -1620,7 +1640,7 @@ namespace bloch::runtime {
                     break;
             }
         }
-        Value ret = m_returnValue;
+        Value ret = widenTo(method->decl->returnType.get(), m_returnValue);
         endScope();
         m_hasReturn = prevReturn;
         m_currentClassCtx = prevClass;
@@ -1634,7 +1654,8 @@ namespace bloch::runtime {
         // Bind parameters, run the body until a return is hit, then unwind.
         beginScope();
         for (size_t i = 0; i < fn->params.size() && i < args.size(); ++i) {
-            m_env.back()[fn->params[i]->name] = {args[i], false, true};
+            m_env.back()[fn->params[i]->name] = {widenTo(fn->params[i]->type.get(), args[i]), false,
+                                                 true};
         }
         bool prevReturn = m_hasReturn;
         m_returnValue = {};
@@ -1646,7 +1667,7 @@ namespace bloch::runtime {
                     break;
             }
         }
-        Value ret = m_returnValue;
+        Value ret = widenTo(fn->returnType.get(), m_returnValue);
         endScope();
         m_hasReturn = prevReturn;
         return ret;
@@ -1887,7 +1908,7 @@ namespace bloch::runtime {
                         }
                     }
                 } else {
-                    v = eval(var->initializer.get());
+                    v = widenTo(var->varType.get(), eval(var->initializer.get()));
                     initialized = true;
                 }
             }
@@ -3005,19 +3026,21 @@ namespace bloch::runtime {
                         : nullptr;
                 if (instField) {
                     if (instField->offset < obj.objectValue->fields.size())
-                        obj.objectValue->fields[instField->offset] = rhs;
+                        obj.objectValue->fields[instField->offset] =
+                            widenTo(instField->type.kind, rhs);
                 } else {
                     auto [staticField, owner] =
                         obj.objectValue->cls
                             ? findStaticFieldWithOwner(obj.objectValue->cls, memAssign->member)
                             : std::pair<RuntimeField*, RuntimeClass*>{nullptr, nullptr};
                     if (staticField && owner && staticField->offset < owner->staticStorage.size())
-                        owner->staticStorage[staticField->offset] = rhs;
+                        owner->staticStorage[staticField->offset] =
+                            widenTo(staticField->type.kind, rhs);
                 }
             } else if (obj.type == Value::Type::ClassRef && obj.classRef) {
                 auto [field, owner] = findStaticFieldWithOwner(obj.classRef, memAssign->member);
                 if (field && owner && field->offset < owner->staticStorage.size())
-                    owner->staticStorage[field->offset] = rhs;
+                    owner->staticStorage[field->offset] = widenTo(field->type.kind, rhs);
             }
             return rhs;
         } else if (auto aassign = dynamic_cast<ArrayAssignmentExpression*>(e)) {
